@@ -272,7 +272,7 @@ func runBisyncSim(r *Run, prop string, cfg PipeCfg, st *Stream, maxCrashes int, 
 		in := ps.inc
 		ph := in.getPhase()
 		if ph == 2 {
-			if in.spErr != nil || crashes > maxCrashes+3 {
+			if (in.spErr != nil && !in.wasReset) || crashes > maxCrashes+3 {
 				ps.setViolation(prop+".ended", "replay ended although nothing failed", "incarnation %d ended: spErr=%v sendErr=%v", in.id, in.spErr, in.sendErr)
 				break
 			}
@@ -290,14 +290,31 @@ func runBisyncSim(r *Run, prop string, cfg PipeCfg, st *Stream, maxCrashes int, 
 			continue
 		}
 		ready := ps.srv.Ready()
-		if ph == 1 && ps.remaining() == 0 && len(ready) == 0 {
+		allCommitted := true
+		for _, c := range o.committed {
+			allCommitted = allCommitted && c
+		}
+		if ph == 1 && ps.remaining() == 0 && len(ready) == 0 && (!in.wasReset || allCommitted) {
 			break
 		}
+		// (an incarnation whose connections the target dropped has not finished: it notices at its next read or write,
+		// ends with an error and is restarted above, on the same output object)
 		acts := ps.healthyActions(true)
 		if crashAt < 0 && crashes < maxCrashes {
 			w := 1
 			if len(ready) > 0 {
 				w = 3
+			}
+			if ph == 1 && len(ready) > 0 {
+				acts = append(acts, pipeAction{"target-reset", 4, func() {
+					// the target drops the link's connections (a drawn prefix of the requests already written still executes,
+					// the replies are lost) and stays reachable: nothing stops the tool, it notices by itself. In sync mode a unit
+					// whose EXEC was executed and whose reply was lost is committed - whatever the link does next, it must not
+					// apply it again
+					crashes++
+					ps.targetReset(r.Sched())
+					o.observe()
+				}})
 			}
 			acts = append(acts, pipeAction{"crash", w, func() {
 				crashes++
